@@ -230,7 +230,8 @@ impl Property for C17 {
          prepared too, P with itself, clone of the prepared value in either position) and a repeat count. After every call the \
          prepared result is compared with plain relate on the same operands, with the exact oracle matrix, and with the result \
          the same (partner, mode) gave earlier in the history. Non-trivial = >= 3 calls, P used in both positions, >= 2 \
-         partners that really intersect P."
+         partners that really intersect P. One scene in 8 is a template: a hole (or a second member) touching the shell in the \
+         middle of an edge, with partners running through the touch point."
             .into()
     }
     fn assumptions() -> Vec<String> {
